@@ -173,7 +173,7 @@ def fill(chk, not_yet):
         "from structured mixtures (clades fully covered by majority-supported children - one, two -, nested conflicts, "
         "nothing retained, identical trees, dominant tree, outliers) x thresholds {0.5..1.0} x both weightings against "
         "reference supports: clade set = clades with support strictly above the threshold, valid tree, uncovered -> -1.",
-        "cases with a support within 1e-9 of the threshold are skipped (the property's quantifier).",
+        "a clade whose support is within 1e-9 of the threshold may or may not be retained (the property's quantifier); the command must still complete and treat the clear cases right.",
         "runtime monitoring: reference-model oracle (clade supports) over generated traces",
         "DESIGN.md 4/C16")
     chk("C18", "exploration",
